@@ -6,7 +6,8 @@ import warnings
 
 ID = 'C18'
 LEVEL = 'other'
-TARGETS = []
+TARGETS = ['selfies/grammar_rules.py::process_branch_symbol',
+           'selfies/grammar_rules.py::process_ring_symbol']
 EXPLANATION = (
     "BOUNDED stand-in (not counted as proved) plus every deductive clause listed in coverage.clauses. GROUND (finite, "
     "complete): the update table of the running module equals the documented legacy->modern mapping for all L, M in "
